@@ -20,9 +20,14 @@ from __future__ import annotations
 
 import contextlib
 import copy
+import datetime
+import decimal
+import fractions
 import json
 import os
+import pathlib
 import random
+import uuid
 import warnings
 
 import c03_oracle as oracle
@@ -81,7 +86,10 @@ def roots_fn(rng, env, classes):
 SCALARS = [0, 1, -3, 1.5, "zzz", "", "1", "a", None, True, False, b"raw"]
 UNRELATED = [0, 1.5, "zzz", b"raw", None, True, [], {}, (), [1, 2, 3], {"q": 1}, (1, 2), "[1, 2", '{"a": }', "null", "[]",
              "{}", "[1]", '{"a": 1}', "(1,)", "\x00\x01", "héllo", b"\xff\xfe", object, [[]], [None], {"a": None},
-             [[1, 2], [3, 4]], {1: 2}, "2020-01-01", 10 ** 30, -1, 3.0]
+             [[1, 2], [3, 4]], {1: 2}, "2020-01-01", 10 ** 30, -1, 3.0,
+             datetime.datetime(2020, 1, 2, 3, 4, tzinfo=datetime.timezone.utc), datetime.date(2020, 1, 2),
+             datetime.time(3, 4, 5, tzinfo=datetime.timezone.utc), datetime.timedelta(seconds=5), decimal.Decimal("1.5"),
+             fractions.Fraction(1, 3), uuid.UUID(int=5), pathlib.PurePosixPath("a/b")]
 
 
 def _retype(rng, w):
@@ -503,7 +511,7 @@ def evaluate(run, st, tag, verdict_limit):
 
 def ensure_stream(run):
     if "main" not in _STATE:
-        n = run.budget(40, 400)
+        n = run.budget(40, 520)
         _STATE["main"] = build_stream(run, n, seed_offset=3, k_adv=run.budget(4, 6))
     return _STATE["main"]
 
